@@ -30,7 +30,7 @@ func init() {
 	})
 }
 
-var readPolicies = []env.ReadPolicy{env.PolicyAll, env.Policy1, env.Policy7, env.Policy258, env.Policy4096, env.PolicyAlt}
+var readPolicies = []env.ReadPolicy{env.PolicyAll, env.Policy1, env.Policy7, env.Policy258, env.Policy4096, env.PolicyAlt, env.PolicyZero}
 
 type streamGen struct {
 	cfg     *Cfg
